@@ -313,7 +313,7 @@ def spreads():
 
 
 @st.composite
-def contract_specs(draw, dyadic=False, min_n=1, max_n=4, kinds=None):
+def contract_specs(draw, dyadic=False, min_n=1, max_n=4, kinds=None, wide=False):
     n = draw(st.integers(min_n, max_n))
     specs = []
     for i in range(n):
@@ -325,6 +325,8 @@ def contract_specs(draw, dyadic=False, min_n=1, max_n=4, kinds=None):
             s0 = 0.0
         else:
             p0 = draw(st.one_of(st.sampled_from(DYADIC_PRICES), st.floats(0.05, 5000.0)))
+            if wide and draw(st.integers(0, 3)) == 0:
+                p0 = draw(st.one_of(st.floats(1e-3, 0.05), st.floats(5000.0, 1e6)))
             s0 = draw(spreads())
         specs.append({"kind": kind, "mult": mult, "margin": margin, "p0": p0, "s0": s0})
     return specs
@@ -365,12 +367,21 @@ def rebalance_ops(n):
 
 
 @st.composite
-def histories(draw, tier="quick", margined_bias=False, max_ops=40, near_close=False):
+def histories(draw, tier="quick", margined_bias=False, max_ops=40, near_close=False, wide=False):
+    """wide=True: accounts of 5-12 contracts, up to 150 operations, prices from 1e-3 to 1e6 and deposits up to 1e10
+    (the bounds of the default histories are a matter of cost, not of the code under test)."""
     dyadic = draw(st.integers(0, 5)) == 0
     kinds = ["umargin", "umargin", "umargin", "es", "zn", "nk", "uspot", "etf"] if margined_bias else None
-    specs = draw(contract_specs(dyadic=dyadic, kinds=kinds, min_n=2 if margined_bias else 1))
+    if wide:
+        specs = draw(contract_specs(dyadic=dyadic, kinds=kinds, min_n=5, max_n=12, wide=True))
+        max_ops = max(max_ops, 150)
+    else:
+        specs = draw(contract_specs(dyadic=dyadic, kinds=kinds, min_n=2 if margined_bias else 1))
     n = len(specs)
-    deposit = draw(st.sampled_from([1024.0, 4096.0])) if dyadic else draw(st.one_of(st.sampled_from([100.0, 1e4]), st.floats(10.0, 1e6)))
+    if wide and not dyadic:
+        deposit = draw(st.one_of(st.sampled_from([100.0, 1e4, 1e8]), st.floats(10.0, 1e6), st.floats(1e6, 1e10)))
+    else:
+        deposit = draw(st.sampled_from([1024.0, 4096.0])) if dyadic else draw(st.one_of(st.sampled_from([100.0, 1e4]), st.floats(10.0, 1e6)))
     fees = (0.0, 0.0) if dyadic else draw(fee_schedules())
     rate = 0.0 if dyadic else draw(st.one_of(st.just(0.0), st.floats(0.0, 0.2)))
     markup = 0.0 if dyadic else draw(st.one_of(st.just(0.0), st.floats(0.0, 0.02)))
@@ -393,7 +404,7 @@ def histories(draw, tier="quick", margined_bias=False, max_ops=40, near_close=Fa
             st.tuples(st.just("V"), st.sampled_from(["nlv", "liq", "notional", "weights", "context"])),
             rebalance_ops(n),
         )
-    ops = draw(st.lists(op, min_size=1, max_size=max_ops))
+    ops = draw(st.lists(op, min_size=40 if wide else 1, max_size=max_ops))
     if not dyadic and draw(st.integers(0, 2)) == 0:
         # motif: open, move the quote, then add to / flip the same position under a (usually positive) spread
         ci = draw(st.integers(0, n - 1))
